@@ -243,6 +243,18 @@ def history(rng, rep, budget, fails, jobs):
                         rep.evaluations += 1
                         if len(l3) != nv or c3["rc"] != 0:
                             fails.append(dict(what="`log -c %s` printed %d lines (exit %d) for %d versions: %s" % (o, len(l3), c3["rc"], nv, c3["err"][:200]), history=hist))
+                        # order and limit: -r shows the newest first, -n N the first N of what is shown
+                        vers = [e["v"] for e in json.loads(lg[3:])]
+                        for extra in ([], ["-r"], ["-n", "1"], ["-n", "2"], ["-r", "-n", "1"], ["-r", "-n", "2"], ["-n", str(nv + 3)]):
+                            cx = pair.sb.run(["log", "-c", "-t"] + extra + [o])
+                            got = [l.split("\t")[0].strip() for l in cx["out"].decode("utf-8", "replace").split("\n") if l.strip()]
+                            want = list(reversed(vers)) if "-r" in extra else list(vers)
+                            if "-n" in extra:
+                                want = want[:int(extra[extra.index("-n") + 1])]
+                            rep.evaluations += 1
+                            rep.classes.add("log|%s|rc%d" % (",".join(x for x in extra if x.startswith("-")), cx["rc"]))
+                            if cx["rc"] != 0 or got != want:
+                                fails.append(dict(what="`log -c -t %s %s` (exit %d) lists %r, the library's versions in that order are %r" % (" ".join(extra), o, cx["rc"], got, want), history=hist[-6:]))
                     paths = sorted(json.loads(st[3:])["state"])
                     for pth in paths[:2]:
                         fl = pair.live.ask("flog %s %s" % (hx(o), hx(pth)))
